@@ -27,9 +27,9 @@ package agreement
 //   DETECTED  player.issueNextVote: next-vote bottom although the staged value is committable
 //             (`if answer.Committable` -> `if false && answer.Committable`): fork found with 2 lost messages.
 //   DETECTED  player.handleMessageEvent: cert-vote on payloadAccepted, i.e. without a soft quorum.
-//   MISSED at the quick bound: handleThresholdEvent(softThreshold) without `p.Step <= cert` (cert vote after
-//             the next vote): the shortest fork needs 4 deviations of mixed kinds (analysed by hand with
-//             the replay tool); inside the thorough bound of sync-1prop-latepayload.
+//   MISSED at the quick bound, DETECTED at the thorough bound (fork in sync-1prop-latepayload after 97k
+//             transitions): handleThresholdEvent(softThreshold) without `p.Step <= cert` (cert vote after the
+//             next vote); the shortest fork needs 4 deviations of mixed kinds (lost + held messages).
 //   not property-breaking (analysed, see report): voteTracker.count without EquivocatorsCount (only
 //             under-counts: liveness); issueSoftVote ignoring nextStatus.Proposal in period>0 (needs a
 //             Byzantine *proposer* with the lowest period-1 credential, not in the adversary alphabet).
